@@ -108,11 +108,12 @@ static void gate_observer(void *vctx, int fn, int phase, void **a) {
                 kc->compute_ks_noise();
                 const int t = kc->t, bb = kc->basebit, base = kc->base;
                 uint32_t acc = (uint32_t) smp->b;
-                int wraps = 0, carries = 0;
+                int wraps = 0, carries = 0, ties = 0;
                 for (int i = 0; i < nin; i++) {
                     uint32_t ai = (uint32_t) smp->a[i];
                     uint32_t at = obs::ks_round(ai, t, bb);
                     uint32_t unit = 1u << (32 - t * bb), trunc = ai & ~(unit - 1);
+                    if ((ai & (unit - 1)) == (unit >> 1) && kc->S[i]) ties++;   // exact tie: the property leaves the direction open
                     if (at != trunc) carries++;                            // rounded up
                     if (at == 0 && trunc != 0) wraps++;                    // rounded up past 2^32 (torus wrap-around)
                     acc -= (uint32_t) kc->S[i] * at;
@@ -123,7 +124,8 @@ static void gate_observer(void *vctx, int fn, int phase, void **a) {
                 }
                 if (wraps) r.probes.add("ks_wraparound", (uint64_t) wraps);
                 if (carries) r.probes.add("ks_round_up", (uint64_t) carries);
-                g->ks_pred = acc; g->ks_pred_ok = true;
+                g->ks_pred = acc; g->ks_pred_ok = ties == 0;
+                if (ties) r.probes.add("ks_exact_tie_not_judged");
                 // MUX: the key-switch input is 1/8 + u1 + u2 exactly
                 if (g->gate == G_MUX && g->depth_boot == 0 && g->boot_seen == 2) {
                     uint32_t want = (uint32_t) T_1s8 + g->woks_phase[0] + g->woks_phase[1];
